@@ -6,3 +6,4 @@ import RaftWal.Props.C01
 #print axioms RaftWal.C01.acked_append_survives_any_crash
 #print axioms RaftWal.C01.protocol_init
 #print axioms RaftWal.C01.truncation_scans_from_source
+#print axioms RaftWal.C01.acked_survive_any_chain
